@@ -138,9 +138,14 @@ async def run_case(case):
             async def body():
                 async with Context() as ctx:
                     st["owner"] = ctx
-                    st["tf"] = await start_background_task_factory(
-                        exception_handler=(FalsyHandler(handler) if len(case["gates"]) % 2 else handler)
-                        if verdict is not None else None)
+                    eh = (FalsyHandler(handler) if len(case["gates"]) % 2 else handler) if verdict is not None else None
+                    if len(case["gates"]) % 3 == 1:
+                        # the factory is started by calling the OWNER's method while another (short-lived) context is
+                        # current: it belongs to the context whose method was called
+                        async with Context():
+                            st["tf"] = await ctx.start_background_task_factory(exception_handler=eh)
+                    else:
+                        st["tf"] = await start_background_task_factory(exception_handler=eh)
                     st["ev_owner"] = anyio.Event()
                     st["ev_child"] = anyio.Event()
                     tg.start_soon(commands, tg, "ev_owner")          # inherits the owner context
